@@ -350,12 +350,32 @@ func GenC06(seed uint64) *Scenario {
 			NotifyURI: "http://smf.sim/notify/" + supiN(s)})
 	}
 	nOps := 2 + g.r.Intn(25)
+	var extra []Op // releases owed for the short-lived second sessions
 	for i := 0; i < nOps; i++ {
 		s := 1 + g.r.Intn(nSub)
 		supi := supiN(s)
 		if allowRecharge && g.r.Chance(120) {
 			rg := subs[supi][g.r.Intn(len(subs[supi]))]
 			ops = append(ops, Op{ID: g.id(), Kind: "recharge", Supi: supi, RG: rg, TopUp: g.r.Range(1, int64(vol)*1000)})
+			continue
+		}
+		// a second PDU session of the subscriber comes and goes (it may report nothing at all):
+		// the first session's reservations and grants must be what they would have been without it
+		if g.r.Chance(70) {
+			name := fmt.Sprintf("x%d_%d", s, i)
+			ops = append(ops, Op{ID: g.id(), Kind: "create", Supi: supi, Sess: name, Consumer: "smf2", ChargingID: int32(100 + i), NotifyURI: "http://smf.sim/notify/" + supi})
+			if g.r.Chance(400) {
+				rg := subs[supi][g.r.Intn(len(subs[supi]))]
+				ops = append(ops, Op{ID: g.id(), Kind: "update", Supi: supi, Sess: name, Units: []Unit{{RG: rg, Req: vol, Containers: []Container{g.online(0)}}}})
+			}
+			extra = append(extra, Op{Kind: "release", Supi: supi, Sess: name})
+			continue
+		}
+		if len(extra) > 0 && g.r.Chance(300) {
+			rel := extra[0]
+			extra = extra[1:]
+			rel.ID = g.id()
+			ops = append(ops, rel)
 			continue
 		}
 		op := Op{ID: g.id(), Kind: "update", Supi: supi, Sess: fmt.Sprintf("s%d", s), Final: allowFinal && g.r.Chance(100)}
@@ -667,6 +687,7 @@ func GenC12(seed uint64) *Scenario {
 	}
 	var ops []Op
 	nOps := 4 + g.r.Intn(24)
+	sameConsumer := g.r.Chance(500)
 	for len(ops) < nOps {
 		s := sess[g.r.Intn(len(sess))]
 		// a create that lacks a mandatory member (rejected) and names another notification endpoint:
@@ -717,7 +738,11 @@ func GenC12(seed uint64) *Scenario {
 			if g.r.Chance(500) {
 				uri = fmt.Sprintf("http://smf.sim/notify/%s/%s", s.supi, s.name) // a new consumer registers its own URI
 			}
-			ops = append(ops, Op{ID: g.id(), Kind: "create", Supi: s.supi, Sess: s.name, Consumer: "smf" + s.name, ChargingID: int32(g.r.Range(1, 99)),
+			consumer := "smf" + s.name
+			if sameConsumer {
+				consumer = "smf" // all sessions of the history come from one SMF
+			}
+			ops = append(ops, Op{ID: g.id(), Kind: "create", Supi: s.supi, Sess: s.name, Consumer: consumer, ChargingID: int32(g.r.Range(1, 99)),
 				NotifyURI: uri})
 			s.created, s.live = true, true
 		case s.live && g.r.Chance(100):
